@@ -526,7 +526,14 @@ def _check_float_to_int(r, f, m=None):
 
 
 def _fmt_names_in(node, objs):
-    return [x.id for x in ast.walk(node) if isinstance(x, ast.Name) and x.id in objs]
+    # (a format object may be written module.NAME when code was moved between modules)
+    out = []
+    for x in ast.walk(node):
+        if isinstance(x, ast.Name) and x.id in objs:
+            out.append(x.id)
+        elif isinstance(x, ast.Attribute) and x.attr in objs and isinstance(x.value, (ast.Name, ast.Attribute)):
+            out.append(x.attr)
+    return out
 
 
 def _check_setters_getters(ctx, r, objs):
@@ -543,17 +550,28 @@ def _check_setters_getters(ctx, r, objs):
         # setter -> helper
         hs = [n for n in own_walk(sf.node) if isinstance(n, ast.Call) and isinstance(n.func, ast.Attribute)
               and n.func.attr in helpers]
-        if len(hs) != 1:
+
+        def encodes(fn):
+            return any(isinstance(x, ast.Attribute) and x.attr.startswith('float_to_int') for x in own_walk(fn.node))
+        # the routine that asks the format object for the code: the helper the setter calls, or the setter itself when the helper
+        # has been folded into it
+        routines = [g for g in [sf] + [helpers[c.func.attr] for c in hs] if encodes(g)]
+        if len(routines) != 1:
             raise AnalysisError(f'{sf.key}: encoder helper call not recognised')
-        h = helpers[hs[0].func.attr]
+        h = routines[0]
         hfm = _fmt_names_in(h.node, objs)
         gobj = objs[gfm[0]]
         family_objs = [nm for nm, o in objs.items() if (o.get('exp_bits'), o.get('mantissa_bits'), o.get('bias'), o['__class__']) ==
                        (gobj.get('exp_bits'), gobj.get('mantissa_bits'), gobj.get('bias'), gobj['__class__'])]
         called = set()
         for x in own_walk(h.node):
-            if isinstance(x, ast.Call) and isinstance(x.func, ast.Attribute) and x.func.attr.startswith('float_to_int') and isinstance(x.func.value, ast.Name):
-                rcv = x.func.value.id
+            # FMT.float_to_int(f), or the bound method taken as a value (`encoder = A.float_to_int if ... else B.float_to_int`)
+            if isinstance(x, ast.Attribute) and x.attr.startswith('float_to_int') and isinstance(x.value, (ast.Name, ast.Attribute)):
+                x = ast.Call(func=x, args=[], keywords=[])
+            else:
+                continue
+            if isinstance(x, ast.Call) and isinstance(x.func, ast.Attribute) and x.func.attr.startswith('float_to_int') and isinstance(x.func.value, (ast.Name, ast.Attribute)):
+                rcv = x.func.value.id if isinstance(x.func.value, ast.Name) else x.func.value.attr
                 if rcv in objs:
                     called.add(rcv)
                 else:
@@ -573,7 +591,7 @@ def _check_setters_getters(ctx, r, objs):
             else:
                 r.ok(f"{e['name']} {nm}")
         width = 1 + gobj['exp_bits'] + (gobj.get('mantissa_bits') if 'mantissa_bits' in gobj else 7 - gobj['exp_bits'])
-        i2b = [n for n in own_walk(h.node) if isinstance(n, ast.Call) and ast.unparse(n.func) == 'int2bitstore']
+        i2b = [n for n in own_walk(h.node) if isinstance(n, ast.Call) and ast.unparse(n.func).split('.')[-1] == 'int2bitstore']
         if not i2b:
             raise AnalysisError(f'{h.key}: int2bitstore call not recognised')
         for c in i2b:
@@ -759,25 +777,34 @@ def _check_e8m0_mxint_bfloat_scale(ctx, r):
     if len(bp) != 1:
         raise AnalysisError('bfloat2bitstore: byte-order parameter not recognised')
 
+    def byte_idx(v):
+        """Which bytes of the packed float32 a value holds, as indices into the BIG-endian byte string (0 = most significant),
+        in order; None if it is not bytes of one struct.pack('>f' / '<f', ..)."""
+        if isinstance(v, tuple) and v and v[0] == 'either':
+            a, b = byte_idx(v[1]), byte_idx(v[2])
+            return a if a == b else None
+        if isinstance(v, tuple) and v and v[0] == 'call' and v[1] == 'struct.pack' and v[2]:
+            return {'>f': [0, 1, 2, 3], '!f': [0, 1, 2, 3], '<f': [3, 2, 1, 0]}.get(v[2][0])
+        if isinstance(v, tuple) and v and v[0] == 'slice':
+            base = byte_idx(v[1])
+            lo, hi = v[2], v[3]
+            st = v[4] if len(v) > 4 else None
+            if base is None or not all(x is None or isinstance(x, int) for x in (lo, hi, st)):
+                return None
+            return base[lo:hi:st]
+        if isinstance(v, tuple) and v and v[0] == 'call' and v[1] in ('bytes', 'bytearray') and v[2]:
+            return byte_idx(v[2][0])
+        return None
+
     def kept(v):
-        """(format, lo, hi) if the value is BitStore.frombytes(struct.pack(format, ..)[lo:hi]); 'either' values must agree."""
         if isinstance(v, tuple) and v and v[0] == 'either':
             a, b = kept(v[1]), kept(v[2])
             return a if a == b else None
         if isinstance(v, tuple) and v and v[0] == 'call' and v[1].endswith('frombytes') and v[2]:
-            inner = v[2][0]
-            if isinstance(inner, tuple) and inner and inner[0] == 'slice':
-                base, lo, hi = inner[1], inner[2], inner[3]
-                if isinstance(base, tuple) and base and base[0] == 'either':
-                    fa, fb = [x[2][0] if isinstance(x, tuple) and x and x[0] == 'call' and x[1] == 'struct.pack' and x[2] else None for x in base[1:3]]
-                    base_fmt = fa if fa == fb else None
-                elif isinstance(base, tuple) and base and base[0] == 'call' and base[1] == 'struct.pack' and base[2]:
-                    base_fmt = base[2][0]
-                else:
-                    base_fmt = None
-                return (base_fmt, lo, hi)
+            got_ = byte_idx(v[2][0])
+            return tuple(got_) if got_ is not None else None
         return None
-    for be, want in ((True, ('>f', 0, 2)), (False, ('<f', 2, 4))):
+    for be, want in ((True, (0, 1)), (False, (1, 0))):
         try:
             pe = PEval(m, s, {bp[0]: be}).run()
         except Unsupported as e:
@@ -786,10 +813,10 @@ def _check_e8m0_mxint_bfloat_scale(ctx, r):
         if None in got or not got:
             raise AnalysisError('bfloat2bitstore form not recognised')
         if got != {want}:
-            r.fail(s.key, f'big_endian={be}: {sorted(got)}', f"bfloat is the most significant half of a float32: big_endian={be} must pack '{want[0]}' and keep bytes "
-                   f'[{want[1]}:{want[2]}]', loc=s.loc())
+            r.fail(s.key, f'big_endian={be}: {sorted(got)}', f"bfloat is the most significant half of a float32: big_endian={be} must store the bytes "
+                   f"{list(want)} of the big-endian float32 (most significant = 0), in that order; it stores {sorted(got)[0]}", loc=s.loc())
         else:
-            r.ok(f'bfloat encoder big_endian={be}', {'instance': 'bfloat byte selection', 'big_endian': be, 'format': want[0], 'bytes': [want[1], want[2]]})
+            r.ok(f'bfloat encoder big_endian={be}', {'instance': 'bfloat byte selection', 'big_endian': be, 'bytes_of_big_endian_float32': list(want)})
     for gk, want_left_self, dec in (('bits:Bits._getbfloatbe', True, '_getfloatbe'), ('bits:Bits._getbfloatle', False, '_getfloatle')):
         g = m.funcs.get(gk)
         if g is None:
